@@ -595,20 +595,27 @@ class Schema(ResolverMap):
             },
         )
 
-        # Resolvers are already attached to the cloned fields, this carries over
-        # the registry. Entries for types or fields which have been removed
-        # since they were registered (e.g. by a previous transform) are dropped.
-        for registry, register in (
-            (self.resolvers, cloned.register_resolver),
-            (self.subscriptions, cloned.register_subscription),
+        # Resolvers are already attached to the cloned fields (possibly wrapped
+        # or replaced by a previous transform, which must not be undone): only
+        # the registry is carried over. Entries for types or fields which have
+        # been removed since they were registered are dropped.
+        for source, target in (
+            (self.resolvers, cloned.resolvers),
+            (self.subscriptions, cloned.subscriptions),
         ):
-            for typename, resolvers in registry.items():
+            for typename, resolvers in source.items():
                 cloned_type = cloned.types.get(typename)
                 if not isinstance(cloned_type, ObjectType):
                     continue
-                for fieldname, resolver in resolvers.items():
-                    if fieldname == "*" or fieldname in cloned_type.field_map:
-                        register(typename, fieldname, resolver)
+                target[typename] = {
+                    fieldname: resolver
+                    for fieldname, resolver in resolvers.items()
+                    if fieldname in cloned_type.field_map
+                }
+
+        for typename, resolver in self.default_resolvers.items():
+            if isinstance(cloned.types.get(typename), ObjectType):
+                cloned.default_resolvers[typename] = resolver
 
         return cloned
 
